@@ -258,3 +258,23 @@ def canary_write_range():
     c = riscv_cfg()
     a = sym_int("a")
     c.mem.write_byte(a, sym_fixed("v", UInt8))   # must be able to raise: noexc is refuted
+
+
+@unit("C18/toy/explicitly-sized-memory")
+def toy_sized():
+    """a TOY memory whose size is given explicitly has exactly that many addresses (4096 for the documented machine), is
+    halfword-addressed and does not wrap"""
+    from architecture_simulator.simulation.toy_simulation import ToySimulation
+    size = [4096, 64, 1000, 5000][split(sym_int("which_size", 0, 3))]
+    for m in (ToyArchitecturalState(unified_memory_size=size).memory, ToySimulation(unified_memory_size=size).state.memory):
+        check("is_flat_memory", type(m) is Memory)
+        check("address_range", m.address_range.start == 0 and m.address_range.stop == size and m.address_range.step == 1)
+        check("halfword_cells_no_wrap", m.address_overflow is False and m.memory_file_values_width == 16)
+        v = sym_fixed("v", UInt16)
+        m.write_halfword(size - 1, v)
+        check("last_address_is_usable", int(m.read_halfword(size - 1)) == int(v))
+        try:
+            m.write_halfword(size, v)
+            check("first_address_behind_the_end_is_rejected", False)
+        except MemoryAddressError as e:
+            check("first_address_behind_the_end_is_rejected", True)
